@@ -1,4 +1,5 @@
 #include "oracle.hpp"
+#include <cstring>
 namespace orc {
 static std::vector<Sol>& reg() { static std::vector<Sol> v; return v; }
 void add(const Sol& s) { reg().push_back(s); }
@@ -22,6 +23,23 @@ void specialise(vh::Rng& r, const Sol& s, Draw& d, const std::vector<std::string
   std::vector<std::string> el;
   for (auto& n : names) if (ok(n) > 0) el.push_back(n);
   if (el.empty()) return;
+  // one time in three: a whole family (same prefix: k_*, cp_*, rho_*, ... or same suffix: *_z, *_t, ...) or a random part of it is zeroed -
+  // the situations the nested-physics reductions name (k_1 = k_2 = 0, all temporal amplitudes 0, ...)
+  if (r.below(3) == 0) {
+    const std::string& n0 = el[(size_t)r.below((int)el.size())];
+    size_t us = n0.rfind('_');
+    if (us != std::string::npos && n0.rfind("a_", 0) != 0) {
+      bool by_prefix = r.coin();
+      std::string key = by_prefix ? n0.substr(0, us + 1) : n0.substr(us);
+      bool part = r.coin();
+      for (auto& n : el) {
+        if (n.rfind("a_", 0) == 0) continue;
+        bool member = by_prefix ? n.rfind(key, 0) == 0 : (n.size() >= key.size() && n.compare(n.size() - key.size(), key.size(), key) == 0);
+        if (member && (!part || r.coin())) { d.set(n, 0.0L); what += n + "=0 "; }
+      }
+      if (!what.empty()) return;
+    }
+  }
   int k = 1 + r.below(3);
   for (int i = 0; i < k; i++) {
     const std::string& n = el[(size_t)r.below((int)el.size())];
@@ -31,6 +49,52 @@ void specialise(vh::Rng& r, const Sol& s, Draw& d, const std::vector<std::string
       case 1: d.set(n, r.sgn()); what += n + "=+-1 "; break;
       case 2: d.set(n, (long double)(2 + r.below(2))); what += n + "=int "; break;
       default: { const std::string& m = el[(size_t)r.below((int)el.size())]; if (ok(m) == 2 && m != n) { d.set(n, d.get(m)); what += n + "=" + m + " "; } break; }
+    }
+  }
+}
+int default_delta_kind(const Sol& s, const std::string& n) {
+  auto ok = s.special_ok ? s.special_ok : default_special_ok;
+  int o = ok(n);
+  if (o == 2) return 1;
+  if (o == 1) return 2;
+  if (n.size() > 2 && n.compare(n.size() - 2, 2, "_0") == 0) return 3;   // offsets dominate the amplitudes: may only grow
+  return 1;                                                               // constants drawn independently of everything else
+}
+static bool stretch_const(const std::string& n) {
+  static const char* W[] = {"R", "k", "mu", "nu", "rho", "theta_v_N2", "M_N", "R_N", "R_N2", "Cf1_N", "Cf1_N2", "Ea_N", "Ea_N2", "h0_N", "h0_N2",
+                            "k_0", "k_1", "k_2", "cp_0", "cp_1", "cp_2", "mu_r", "kappa_r", "lambda_r", "T_r"};
+  for (auto w : W) if (n == w) return true;
+  return false;
+}
+void stretch_draw(vh::Rng& r, const Sol& s, Draw& d, const std::vector<std::string>& names, std::string& what) {
+  if (!s.stretch) return;
+  auto p10 = [&](long double lo, long double hi) { return powl(10.0L, r.uni(lo, hi)); };
+  int acts = 1 + r.below(2);
+  for (int a = 0; a < acts; a++) {
+    int kind = r.below(s.stretch == 1 ? 4 : 2);
+    std::vector<std::string> cand;
+    if (kind == 0) {          // a length
+      for (auto& n : names) if (n == "L" || n == "Lx" || n == "Ly" || n == "Lz") cand.push_back(n);
+      if (cand.empty()) continue;
+      const std::string& n = cand[(size_t)r.below((int)cand.size())];
+      long double f = p10(-2, 2); d.set(n, d.get(n) * f); what += n + "*=" + std::to_string((double)f) + " ";
+    } else if (kind == 1) {   // a positive / sign-free constant
+      for (auto& n : names) if (stretch_const(n)) cand.push_back(n);
+      if (cand.empty()) continue;
+      const std::string& n = cand[(size_t)r.below((int)cand.size())];
+      long double f = p10(-3, 3); d.set(n, d.get(n) * f); what += n + "*=" + std::to_string((double)f) + " ";
+    } else if (kind == 2) {   // one wave number
+      for (auto& n : names) if (n.rfind("a_", 0) == 0) cand.push_back(n);
+      if (cand.empty()) continue;
+      const std::string& n = cand[(size_t)r.below((int)cand.size())];
+      long double f = p10(-2, 1.5L); d.set(n, d.get(n) * f); what += n + "*=" + std::to_string((double)f) + " ";
+    } else {                  // a whole field (offset and amplitudes together keep its sign): rho_*, p_*, T_*, u_*, rho_N_*, ...
+      for (auto& n : names) { size_t us = n.rfind('_'); if (us != std::string::npos && us > 0 && n.rfind("a_", 0) != 0 && !stretch_const(n) && n.size() - us == 2 && strchr("01xyzrt", n[us + 1])) cand.push_back(n.substr(0, us + 1)); }
+      if (cand.empty()) continue;
+      std::string pre = cand[(size_t)r.below((int)cand.size())];
+      long double f = p10(-3, 4);
+      for (auto& n : names) if (n.rfind(pre, 0) == 0 && n.size() == pre.size() + 1 && strchr("01xyzrt", n[pre.size()]) && !stretch_const(n)) d.set(n, d.get(n) * f);
+      what += pre + "* *=" + std::to_string((double)f) + " ";
     }
   }
 }
